@@ -16,6 +16,13 @@ pub trait MObj {
     fn cl(&self) -> Box<dyn MObj> {
         panic!("clone unsupported")
     }
+    fn as_any(&self) -> &dyn std::any::Any {
+        panic!("HARNESS: clone_from unsupported")
+    }
+    /// `self.clone_from(src)` for the types that are Clone
+    fn clf(&mut self, _src: &dyn MObj) {
+        panic!("HARNESS: clone_from unsupported")
+    }
     /// the type's own (inherent) reset / reset_with_key, where it has them (legacy BLAKE2 wrappers)
     fn reset_inherent(&mut self) {
         panic!("HARNESS: no inherent reset")
@@ -48,6 +55,13 @@ macro_rules! legacy_b2_mac {
             }
             fn cl(&self) -> Box<dyn MObj> {
                 Box::new($name(self.0.clone()))
+            }
+            fn as_any(&self) -> &dyn std::any::Any {
+                self
+            }
+            fn clf(&mut self, src: &dyn MObj) {
+                let s = src.as_any().downcast_ref::<Self>().expect("HARNESS: clone_from between different types");
+                self.0.clone_from(&s.0)
             }
             fn reset_inherent(&mut self) {
                 self.0.reset()
@@ -103,6 +117,13 @@ impl<M: Mac + Clone + 'static> MObj for WMacC<M> {
     fn cl(&self) -> Box<dyn MObj> {
         Box::new(WMacC(self.0.clone()))
     }
+    fn as_any(&self) -> &dyn std::any::Any {
+        self
+    }
+    fn clf(&mut self, src: &dyn MObj) {
+        let s = src.as_any().downcast_ref::<Self>().expect("HARNESS: clone_from between different types");
+        self.0.clone_from(&s.0)
+    }
 }
 
 /// legacy Digest objects behind a uniform interface
@@ -114,6 +135,8 @@ pub trait DigestObj {
     fn output_bytes(&self) -> usize;
     fn block_size(&self) -> usize;
     fn cl(&self) -> Box<dyn DigestObj>;
+    fn as_any(&self) -> &dyn std::any::Any;
+    fn clf(&mut self, src: &dyn DigestObj);
     fn reset_inherent(&mut self) {
         panic!("HARNESS: no inherent reset")
     }
@@ -148,6 +171,13 @@ macro_rules! legacy_b2_dig {
             }
             fn cl(&self) -> Box<dyn DigestObj> {
                 Box::new($name(self.0.clone()))
+            }
+            fn as_any(&self) -> &dyn std::any::Any {
+                self
+            }
+            fn clf(&mut self, src: &dyn DigestObj) {
+                let s = src.as_any().downcast_ref::<Self>().expect("HARNESS: clone_from between different types");
+                self.0.clone_from(&s.0)
             }
             fn reset_inherent(&mut self) {
                 self.0.reset()
@@ -184,6 +214,13 @@ impl<D: Digest + Clone + 'static> DigestObj for WDig<D> {
     }
     fn cl(&self) -> Box<dyn DigestObj> {
         Box::new(WDig(self.0.clone()))
+    }
+    fn as_any(&self) -> &dyn std::any::Any {
+        self
+    }
+    fn clf(&mut self, src: &dyn DigestObj) {
+        let s = src.as_any().downcast_ref::<Self>().expect("HARNESS: clone_from between different types");
+        self.0.clone_from(&s.0)
     }
 }
 
@@ -360,6 +397,15 @@ fn mac_history(a: &[&str]) -> Vec<String> {
                 })
             }
             "ob" => step(&mut out, || Some(format!("{}", objs[o].as_ref().unwrap().output_bytes()))),
+            // cf.DST.SRC : objs[DST].clone_from(&objs[SRC])
+            "cf" => {
+                let src = usz(p[2]);
+                step(&mut out, || {
+                    let s = objs[src].as_ref().unwrap().cl();
+                    objs[o].as_mut().unwrap().clf(s.as_ref());
+                    None
+                })
+            }
             "c" => {
                 let dst = usz(p[2]);
                 step(&mut out, || {
@@ -430,6 +476,15 @@ fn dig_history(a: &[&str]) -> Vec<String> {
             "ob" => step(&mut out, || Some(format!("{}", objs[o].as_ref().unwrap().output_bytes()))),
             "obits" => step(&mut out, || Some(format!("{}", objs[o].as_ref().unwrap().output_bits()))),
             "bs" => step(&mut out, || Some(format!("{}", objs[o].as_ref().unwrap().block_size()))),
+            // cf.DST.SRC : objs[DST].clone_from(&objs[SRC])
+            "cf" => {
+                let src = usz(p[2]);
+                step(&mut out, || {
+                    let s = objs[src].as_ref().unwrap().cl();
+                    objs[o].as_mut().unwrap().clf(s.as_ref());
+                    None
+                })
+            }
             "c" => {
                 let dst = usz(p[2]);
                 step(&mut out, || {
